@@ -11,17 +11,18 @@ ASSUME = [
 def run(tier: str, seed: int):
     if tier == 'quick':
         cfgs = (list(F.fam_limits(1, 4, batch=2, faults=False)) + list(F.fam_limits(1, 3, batch=3, faults=True, tnames=('TA', 'TB', 'TC', 'TD')))
-                + list(F.fam_limits_special(3)) + list(F.fam_limits_warm(3)))
-        serial = list(F.fam_limits(1, 3, batch=1)) + list(F.fam_limits_special(2)) + list(F.fam_limits_warm(2))
+                + list(F.fam_limits_special(3)) + list(F.fam_limits_warm(3)) + list(F.fam_inherit(3)))
+        serial = list(F.fam_limits(1, 3, batch=1)) + list(F.fam_limits_special(2)) + list(F.fam_limits_warm(2)) + list(F.fam_inherit(2))
         rule = 'all DAG shapes n<=4 x per-node type in {unlimited, max_parallel 1, 2} (n<=3: also 3, with single faults/deaths, batch<=3), all nodes requested, every completion order; n<=3 over specially declared limited types (cache=None + limit, single-call decorator spelling, two types with identical decorator arguments) with empty polls; limited types against a warm cache with/without bust_cache'
         e3c = (list(F.fam_e3(F.fam_limits(1, 3, tnames=('TA', 'TB'), faults=True), workers=(1, 2, None)))
                + list(F.fam_e3(list(F.fam_limits_special(3, tnames=('TK', 'TC1', 'TC2'))) + list(F.fam_limits_warm(3)), workers=(3,), cpu_count=3, backends=('fork',), liveness=False))
+               + list(F.fam_e3([c for c in F.fam_inherit(3) if len(c.requested) == c.spec.n and not c.precached and c.requested[0][0] == 0], workers=(3,), cpu_count=3, backends=('fork',), liveness=False))
                # limited tasks queued behind unlimited ones that occupy every worker
                + list(F.fam_e3([F.Config(spec=F.mk_spec(((),) * 4, types=ty), requested=tuple((i, False) for i in range(4)))
                                 for ty in (('TA', 'TA', 'TB', 'TB'), ('TA', 'TA', 'TC', 'TC'), ('TA', 'TB', 'TA', 'TB'))], workers=(2,), backends=('fork',), liveness=False)))
     else:
         cfgs = (list(F.fam_limits(1, 4, batch=3, faults=True, tnames=('TA', 'TB', 'TC', 'TD')))
-                + list(F.fam_limits(5, 5, batch=2, tnames=('TB', 'TC'))) + list(F.fam_limits_special(3, batch=3)) + list(F.fam_limits_warm(3, batch=3)))
+                + list(F.fam_limits(5, 5, batch=2, tnames=('TB', 'TC'))) + list(F.fam_limits_special(3, batch=3)) + list(F.fam_limits_warm(3, batch=3)) + list(F.fam_inherit(3, batch=3, faults=True)))
         serial = list(F.fam_limits(1, 4, batch=1)) + list(F.fam_limits_special(3)) + list(F.fam_limits_warm(3))
         rule = 'n<=4 x types {None,1,2,3} x faults, batch<=3; n=5 x {1,2}'
         e3c = list(F.fam_e3(F.fam_limits(1, 3, tnames=('TA', 'TB', 'TC'), faults=True), workers=(1, 2, 3, None), cpu_count=3)) + list(F.fam_e3(F.fam_limits(4, 4, tnames=('TA', 'TB')), workers=(2, 3), cpu_count=3, liveness=False)) + list(F.fam_e3(list(F.fam_limits_special(3)) + list(F.fam_limits_warm(3)), workers=(2, 3), cpu_count=3))
